@@ -85,6 +85,11 @@ func main() {
 		p.Run(c)
 		c.ClearCur()
 		j.Write(c.Res)
+		if c.Respawn {
+			j.Write(map[string]any{"canary": "respawn", "after": idx})
+			j.Close()
+			os.Exit(75)
+		}
 	}
 	j.Write(map[string]any{"canary": "done", "shard": *shard})
 	j.Close()
